@@ -4,7 +4,7 @@
    All theorems below carry [versions_i32 ms] (every compiled version < 2^31): for versions in
    [2^31, 2^32) even the sequential re-run misbehaves (C09_run_idempotent_full_refuted), and the invariant
    proof uses the sequential theory for an instance that starts after another one has committed. *)
-From VV.MIG Require Import Spec SeqP ConcP.
+From VV.MIG Require Import Spec SeqP ConcP TermP.
 
 Definition C11_at_most_once_full_statement : Prop := forall o ms k d n sched,
   ascending ms = true -> at_version k d = true ->
@@ -59,6 +59,20 @@ Check C11_each_instance_ok_or_err_partial : forall o ms k d n sched p,
   | Some r => (r = ROk \/ exists e, r = RErr e) /\ i_lock (p_inst p) = Unlocked /\ i_buf (p_inst p) = None
   | None => p_todo p <> []
   end.
+
+(* ... and it does return: after steps_bound = 5 + (1 + sum over migrations of (statements + 1)) of its own
+   scheduler steps an instance has finished, whatever the other instances do in between (no hang, no
+   unbounded retry inside the generated code) *)
+Theorem C11_instance_terminates_partial : forall o ms k d n sched pid,
+  ascending ms = true -> versions_i32 ms = true -> at_version k d = true ->
+  pid < n -> steps_bound o ms <= count_occ Nat.eq_dec sched pid ->
+  exists p, nth_error (s_insts (steps o ms sched (init_sys n d))) pid = Some p /\ finished p = true.
+Proof. exact instance_terminates. Qed.
+Print Assumptions C11_instance_terminates_partial.
+Check C11_instance_terminates_partial : forall o ms k d n sched pid,
+  ascending ms = true -> versions_i32 ms = true -> at_version k d = true ->
+  pid < n -> steps_bound o ms <= count_occ Nat.eq_dec sched pid ->
+  exists p, nth_error (s_insts (steps o ms sched (init_sys n d))) pid = Some p /\ finished p = true.
 
 (* once all have finished, re-running (any loser, any number >= 1 of times, one after the other) ends in
    the database of one sequential run *)
